@@ -135,6 +135,21 @@ func c19Civil(w *W, y int) {
 			if want := fmt.Sprintf("%s %02d:%02d:%02d", ymd(y, m, d), hh, mi, ss); long != want || len(long) != 19 {
 				w.Violatef("stamp-format", fmt.Sprintf("%d-%d-%d/long", y, m, d), "ToYmdHms of %s %02d:%02d:%02d is %q", ymd(y, m, d), hh, mi, ss, long)
 			}
+			// objects reached by stepping from this one (which has printed itself by now) print their own fields
+			if (d+m)%5 == 0 {
+				lg := calendar.NewSolar(y, m, d, hh, mi, ss)
+				_ = lg.ToYmd() + lg.ToYmdHms() + lg.String() + lg.ToFullString()
+				lg.GetLunar()
+				for ri, r := range []*calendar.Solar{s.NextYear(1), s.NextYear(-1), s.NextMonth(1), s.NextDay(1), s.NextDay(-1), lg.NextYear(2), lg.NextMonth(-1), lg.NextHour(5), lg.NextHour(-30), lg.NextDay(40), lg.Next(3, false)} {
+					if r.GetYear() < 1 || r.GetYear() > 9999 {
+						continue
+					}
+					if a, b := r.ToYmd()+"|"+r.ToYmdHms()+"|"+r.String(), fmt.Sprintf("%04d-%02d-%02d|%04d-%02d-%02d %02d:%02d:%02d|%04d-%02d-%02d", r.GetYear(), r.GetMonth(), r.GetDay(), r.GetYear(), r.GetMonth(), r.GetDay(), r.GetHour(), r.GetMinute(), r.GetSecond(), r.GetYear(), r.GetMonth(), r.GetDay()); a != b {
+						w.Violatef("civil-format", fmt.Sprintf("%d-%d-%d/stepped%d", y, m, d, ri), "a Solar reached by stepping from %s prints %q, its fields say %q", str, a, b)
+					}
+				}
+				w.Eval(11)
+			}
 			if prev != "" && !(prev < str) {
 				w.Violatef("civil-order", fmt.Sprintf("%d-%d-%d", y, m, d), "%q does not sort after the previous day's %q", str, prev)
 			}
